@@ -27,12 +27,13 @@ func (RecListV) isValue() {}
 type specVar func(st *State) Value
 
 type specEnv struct {
-	e     *Exec
-	st    *State
-	old   *State
-	vars  map[string]specVar
-	bound map[string]Value
-	where string
+	e       *Exec
+	st      *State
+	old     *State
+	vars    map[string]specVar
+	bound   map[string]Value
+	where   string
+	recBase map[string]int // ghost-trace indices are relative to the records that existed before the call
 }
 
 type specError struct{ msg string }
@@ -93,6 +94,9 @@ func (se *specEnv) eval(x SExpr) Value {
 		if v, ok := e.DB.Consts[n.Name]; ok {
 			return Untyped{V: int64(v)}
 		}
+		if g := e.lookupGlobal(n.Name); g != nil && se.st != nil {
+			return e.loadLoc(se.st, &Loc{Obj: e.globalObj(g)})
+		}
 		if se.st != nil && se.st.ghost != nil {
 			if v, ok := se.st.ghost[n.Name]; ok {
 				return v
@@ -107,6 +111,12 @@ func (se *specEnv) eval(x SExpr) Value {
 				}
 			}
 			if rs != nil || e.DB.isTraceName(n.Name) {
+				if b := se.recBase[n.Name]; b > 0 {
+					if b > len(rs) {
+						b = len(rs)
+					}
+					rs = rs[b:]
+				}
 				return RecListV{Rs: rs}
 			}
 		}
@@ -314,6 +324,16 @@ func (se *specEnv) field(v Value, name string, x SExpr) Value {
 			}
 		}
 		se.fail("no field %q in struct (%s)", name, exprString(x))
+	case Scalar:
+		if b.Typ != nil {
+			if stt, ok := b.Typ.Underlying().(*types.Struct); ok {
+				for i := 0; i < stt.NumFields(); i++ {
+					if stt.Field(i).Name() == name {
+						return e.projectField(b, i)
+					}
+				}
+			}
+		}
 	case RecV:
 		r := b.R
 		switch name {
@@ -345,6 +365,12 @@ func (se *specEnv) field(v Value, name string, x SExpr) Value {
 // coerce makes two operands type-compatible (untyped constants adapt).
 func (se *specEnv) coerce(a, b Value, x SExpr) (Scalar, Scalar) {
 	c := se.e.C
+	if _, abs := a.(AbsentV); abs {
+		a = Scalar{T: c.Fresh("absent", smt.BV(64)), Typ: intTyp}
+	}
+	if _, abs := b.(AbsentV); abs {
+		b = Scalar{T: c.Fresh("absent", smt.BV(64)), Typ: intTyp}
+	}
 	ua, aok := a.(Untyped)
 	ub, bok := b.(Untyped)
 	switch {
@@ -567,7 +593,13 @@ func (se *specEnv) equal(a, b Value, x SExpr) *smt.Term {
 			return c.And(c.Eq(va.Len, vb.Len), c.Eq(va.Cap, vb.Cap), c.Eq(e.sliceBaseAddr(va), e.sliceBaseAddr(vb)))
 		}
 	case *StructV:
+		if sb, ok := b.(Scalar); ok && va.Origin != nil && va.Origin.Sort == sb.T.Sort {
+			return c.Eq(va.Origin, sb.T)
+		}
 		if vb, ok := b.(*StructV); ok {
+			if va.Origin != nil && vb.Origin != nil {
+				return c.Eq(va.Origin, vb.Origin)
+			}
 			r := c.True()
 			for i := 0; i < va.T.NumFields(); i++ {
 				r = c.And(r, se.equal(va.Field(i), vb.Field(i), x))
@@ -691,7 +723,19 @@ func (e *Exec) seqTerm(st *State, s *SeqV) *smt.Term {
 			return n.t
 		}
 	}
+	// structurally identical sequences (same length term, same element term at
+	// a generic probe index) share one name
+	if e.seqProbe == nil {
+		e.seqProbe = c.Fresh("probe", smt.BV(64))
+		e.seqByKey = map[string]*smt.Term{}
+	}
+	key := fmt.Sprintf("%d|%d|%d", s.W, s.Len.ID, s.Read(e.seqProbe).ID)
+	if t, ok := e.seqByKey[key]; ok {
+		e.seqNames = append(e.seqNames, seqName{s, t})
+		return t
+	}
 	t := c.Fresh("seq", sortByteSeq)
+	e.seqByKey[key] = t
 	k := c.BoundVar("k", smt.BV(64))
 	at := func(x, i *smt.Term) *smt.Term { return c.App(fmt.Sprintf("seq_at%d", s.W), smt.BV(s.W), x, i) }
 	ln := func(x *smt.Term) *smt.Term { return c.App("seq_len", smt.BV(64), x) }
@@ -851,6 +895,9 @@ func (se *specEnv) call(n *SCall) Value {
 		return sub.eval(n.Args[1])
 	case "len", "cap":
 		v := se.eval(n.Args[0])
+		if _, abs := v.(AbsentV); abs {
+			return AbsentV{}
+		}
 		switch s := v.(type) {
 		case *SliceV:
 			if n.Fun == "len" {
@@ -903,7 +950,11 @@ func (se *specEnv) call(n *SCall) Value {
 	case "cat":
 		var parts []*SeqV
 		for _, a := range n.Args {
-			s, ok := se.eval(a).(*SeqV)
+			av := se.eval(a)
+			if _, abs := av.(AbsentV); abs {
+				return AbsentV{}
+			}
+			s, ok := av.(*SeqV)
 			if !ok {
 				se.fail("cat of non-sequence in %s", exprString(n))
 			}
@@ -964,6 +1015,104 @@ func (se *specEnv) call(n *SCall) Value {
 		}
 		T := map[int]types.Type{16: types.Typ[types.Uint16], 32: types.Typ[types.Uint32], 64: types.Typ[types.Uint64]}[w]
 		return Scalar{T: t, Typ: T}
+	case "jsondecode":
+		// jsondecode("pcs.TcbInfo", seq): what json.Unmarshal yields for that target type
+		str, ok := n.Args[0].(*SStr)
+		if !ok {
+			se.fail("jsondecode(\"type\", seq)")
+		}
+		T := e.lookupType(str.V)
+		if T == nil {
+			se.fail("unknown type %q", str.V)
+		}
+		a1 := se.eval(n.Args[1])
+		if _, abs := a1.(AbsentV); abs {
+			return AbsentV{}
+		}
+		sq, ok := a1.(*SeqV)
+		if !ok {
+			se.fail("jsondecode of non-sequence")
+		}
+		return e.fromTerm(T, c.App("jsonDecode_"+sortName(T), sortOf(T), e.seqTerm(se.st, sq)), "jsondecode")
+	case "jsonmember":
+		// jsonmember(seq, "name"): the raw JSON member that bodyToRawMessage extracts
+		a0 := se.eval(n.Args[0])
+		if _, abs := a0.(AbsentV); abs {
+			return AbsentV{}
+		}
+		sq, ok := a0.(*SeqV)
+		if !ok {
+			se.fail("jsonmember(seq, name)")
+		}
+		key := se.scalar(se.eval(n.Args[1]), n)
+		raw := e.lookupType("json.RawMessage")
+		if raw == nil {
+			se.fail("type json.RawMessage not found")
+		}
+		mt := types.NewMap(types.Typ[types.String], raw)
+		sn := sortName(mt)
+		id := c.App("jsonDecode_"+sn, sortOf(mt), e.seqTerm(se.st, sq))
+		return e.fromTerm(raw, c.App("map_get_"+sn, sortOf(raw), id, key.T), "jsonmember")
+	case "jsonhas":
+		sq, ok := se.eval(n.Args[0]).(*SeqV)
+		if !ok {
+			se.fail("jsonhas(seq, name)")
+		}
+		key := se.scalar(se.eval(n.Args[1]), n)
+		raw := e.lookupType("json.RawMessage")
+		mt := types.NewMap(types.Typ[types.String], raw)
+		sn := sortName(mt)
+		id := c.App("jsonDecode_"+sn, sortOf(mt), e.seqTerm(se.st, sq))
+		return boolV(c.App("map_has_"+sn, smt.Bool, id, key.T))
+	case "mapget", "maphas":
+		m, ok := se.eval(n.Args[0]).(*MapV)
+		if !ok {
+			se.fail("%s(map, key)", n.Fun)
+		}
+		key := se.scalar(se.eval(n.Args[1]), n)
+		sn := sortName(m.Typ)
+		if n.Fun == "maphas" {
+			return boolV(c.App("map_has_"+sn, smt.Bool, m.ID, key.T))
+		}
+		vt := m.Typ.Elem()
+		return e.fromTerm(vt, c.App("map_get_"+sn, sortOf(vt), m.ID, key.T), "mapget")
+	case "call":
+		// call("pkg.Func", args...): the result of a (pure) repository function
+		str, ok := n.Args[0].(*SStr)
+		if !ok {
+			se.fail("call(\"pkg.Func\", args...)")
+		}
+		fn := e.lookupFunc(str.V)
+		if fn == nil {
+			se.fail("function %q not found", str.V)
+		}
+		var args []Value
+		for _, a := range n.Args[1:] {
+			args = append(args, se.eval(a))
+		}
+		tmp := se.st.clone()
+		e.dry++
+		res := e.inline(tmp, fn, nil, args, 0)
+		e.dry--
+		return res
+	case "errhas":
+		// errhas(err, "*pkg.Type"): errors.As(err, &target of that type) would succeed
+		iv, ok := se.eval(n.Args[0]).(*IfaceV)
+		str, ok2 := n.Args[1].(*SStr)
+		if !ok || !ok2 {
+			se.fail("errhas(err, \"type\")")
+		}
+		T := e.lookupType(str.V)
+		if T == nil {
+			se.fail("unknown type %q", str.V)
+		}
+		return boolV(e.errChainHas(iv, e.typeID(T)))
+	case "strbytes":
+		v := se.scalar(se.eval(n.Args[0]), n)
+		st := v.T
+		return &SeqV{W: 8, Len: c.App("str_len", smt.BV(64), st), Read: func(i *smt.Term) *smt.Term {
+			return c.App("str_at", smt.BV(8), st, i)
+		}}
 	case "hexenc":
 		sq, ok := se.eval(n.Args[0]).(*SeqV)
 		if !ok {
@@ -1015,6 +1164,10 @@ func (se *specEnv) call(n *SCall) Value {
 			return Scalar{T: e.ptrAddr(v), Typ: nil}
 		case *SliceV:
 			return Scalar{T: e.sliceBaseAddr(v), Typ: nil}
+		case *IfaceV:
+			return Scalar{T: e.ifaceIdent(v), Typ: nil}
+		case NilV:
+			return Scalar{T: c.BVC(0, 64), Typ: nil}
 		}
 		se.fail("addr of non-pointer")
 	}
@@ -1041,6 +1194,14 @@ func (se *specEnv) call(n *SCall) Value {
 				keys = append(keys, k)
 			}
 			if ok {
+				// memory-dependent arguments: the predicate is tied to the current
+				// epoch of writes to pre-existing memory
+				for _, v := range argv {
+					switch v.(type) {
+					case *PtrV, *SliceV, *StructV:
+						keys = append(keys, c.BVC(uint64(e.preWrites), 64))
+					}
+				}
 				name := "opq_" + m.Name
 				for _, k := range keys {
 					name += "_" + smt.Sanitize(k.Sort.String())
@@ -1086,10 +1247,23 @@ func (se *specEnv) call(n *SCall) Value {
 	if u, ok := e.DB.UFs[n.Fun]; ok {
 		var args []*smt.Term
 		for _, a := range n.Args {
-			args = append(args, se.termOf(se.eval(a), a))
+			av := se.eval(a)
+			if _, abs := av.(AbsentV); abs {
+				return AbsentV{}
+			}
+			args = append(args, se.termOf(av, a))
 		}
-		ret := parseSort(u.Ret)
+		retName, fixedLen := u.Ret, int64(-1)
+		if i := strings.Index(retName, "["); i > 0 && strings.HasSuffix(retName, "]") {
+			fmt.Sscanf(retName[i+1:len(retName)-1], "%d", &fixedLen)
+			retName = retName[:i]
+		}
+		ret := parseSort(retName)
 		t := c.App("spec_"+u.Name, ret, args...)
+		if fixedLen >= 0 && ret == sortByteSeq {
+			e.addAxioms(c.Eq(c.App("seq_len", smt.BV(64), t), bv64(c, fixedLen)))
+			return &SeqV{W: 8, Len: bv64(c, fixedLen), Read: func(i *smt.Term) *smt.Term { return c.App("seq_at8", smt.BV(8), t, i) }}
+		}
 		var T types.Type
 		if ret.IsBool() {
 			T = boolTyp
